@@ -33,6 +33,10 @@
  * numbers undo blocks by ABSOLUTE device position, id = fs-relative undo block +
  * offset / tdb_data_size (vf_wbase).  Whether try_reopen_undo_file() rebuilds the
  * map compatibly is decided behaviourally by the `reopen` harness (FOLLOWUP queries).
+ * Extent limit (AT_LIMIT / AT_LIMIT_SHORT, E2UNDO_MAX_EXTENT_BLOCKS scaled to 2 or 3 by
+ * hook E2FSPROGS_VERIF_UNDO_MAX_EXTENT_BLOCKS): the current key holds exactly the
+ * limit; the reader asserts for EVERY key (in every query) size <= limit * tds, the
+ * rule by which e2undo refuses a whole file ("block N is too long").
  * OFFMODE=2 (offset not a multiple of the undo block): the queries are split into
  * "no carry" ((lo % tds) + (offset % tds) < tds, assumed) and OFF_CARRY (the
  * complement), so that the known shifted-capture defect is isolated in one query.
@@ -50,9 +54,13 @@
 #define MAXNEW 2
 #endif
 #define KB0 2		/* current key block in the pre-state */
-#define MAXCH (MAXNEW + 2)			/* undo blocks per key in the post-state */
+/* BOUND: K0MAX = most undo blocks the key already in the current key block may have (2; 3 in the extent-limit queries with limit 3) */
+#ifndef K0MAX
+#define K0MAX 2
+#endif
+#define MAXCH (MAXNEW + K0MAX)			/* undo blocks per key in the post-state */
 #define MAXKB ((MAXNEW + 1 + 1) / 2)		/* key blocks holding the <= 1+MAXNEW keys (KPB == 2) */
-#define UCAP (KB0 + 1 + 2 + MAXNEW + MAXKB + 1)
+#define UCAP (KB0 + 1 + K0MAX + MAXNEW + MAXKB + 1)
 #include "undo_env.h"
 
 #define OP_WRITE 1
@@ -146,6 +154,9 @@ static void ref_walk(unsigned long long total, unsigned long long fs_bs, unsigne
 				unsigned long long fileblk = lblk, start = fsblk * fs_bs;
 				__u32 crc = (__u32) ref_le(k + 8, 4);
 				PROP(size >= 1 && size <= (unsigned long long) MAXCH * TDS, "key size is sane");
+				/* e2undo refuses the WHOLE undo file if E2UNDO_MAX_EXTENT_BLOCKS * blocksize < key size ("block N is too long") */
+				PROP(size <= (unsigned long long) E2UNDO_MAX_EXTENT_BLOCKS * TDS,
+				     "every key in the undo file is at most E2UNDO_MAX_EXTENT_BLOCKS undo blocks long (e2undo refuses the file otherwise)");
 				lblk += (size + TDS - 1) / TDS;
 				if (kb == 0 && j == 0) {
 					rw_k0_fsblk = fsblk;
@@ -218,8 +229,14 @@ int main(void)
 	for (i = 0; i < UCAP * TDS; i++)
 		vf_uf[i / TDS][i % TDS] = 0xEE;
 	ASSUME(IN.kib <= 1);
-	/* BOUND: the key already in the current key block is 1 or 2 whole undo blocks long (keys shortened by the device end are created by the step, not assumed before it) */
-	ASSUME(IN.k0_blocks >= 1 && IN.k0_blocks <= 2);
+	/* BOUND: the key already in the current key block is 1..K0MAX whole undo blocks long (keys shortened by the device end are created by the step, not assumed before it) */
+	ASSUME(IN.k0_blocks >= 1 && IN.k0_blocks <= K0MAX);
+	/* Inv: no key exceeds the extent limit e2undo accepts */
+	ASSUME(IN.k0_blocks <= E2UNDO_MAX_EXTENT_BLOCKS);
+#if defined(AT_LIMIT) || defined(AT_LIMIT_SHORT)
+	/* extent-limit queries (hook E2FSPROGS_VERIF_UNDO_MAX_EXTENT_BLOCKS scales the limit): the current key holds EXACTLY the limit */
+	ASSUME(IN.kib == 1 && IN.k0_blocks == E2UNDO_MAX_EXTENT_BLOCKS);
+#endif
 	vf_data.keys_in_block = IN.kib;
 	/* BOUND: num_keys below 2^31 */
 	ASSUME(IN.num_keys >= IN.kib && IN.num_keys < (1U << 31));
@@ -237,7 +254,7 @@ int main(void)
 				ASSUME(vf_W[WIDX(i)] == 1);
 		undo0 += IN.k0_blocks;
 		/* Inv: the key's data blocks hold the ORIGINAL bytes of the device range it covers */
-		for (i = 0; i < 2 * TDS; i++)
+		for (i = 0; i < K0MAX * TDS; i++)
 			if ((unsigned long long) i < k0_size)
 				vf_uf[KB0 + 1 + i / TDS][i % TDS] = VF_TAG(k0_start + i);
 #ifndef NO_CRC_CHECK
@@ -280,6 +297,13 @@ int main(void)
 	/* BOUND: the request is 1..MAXBYTES bytes and lies inside the modelled device capacity of NBLK undo blocks */
 	ASSUME(IN.block < DEVCAP && IN.count < DEVCAP && IN.boff < DEVCAP && IN.bsize < DEVCAP);
 	ASSUME(hi > lo && hi - lo <= MAXBYTES && hi <= DEVCAP);
+#ifdef AT_LIMIT_SHORT
+	/* ... the request starts exactly where that key ends, in an undo block not saved yet, and the device ends INSIDE that undo block (short last block) */
+	ASSUME(lo == k0_start + k0_size && L > lo && L < lo + TDS);
+	for (i = 0; i < NBLK; i++)
+		if ((unsigned long long) i * TDS == lo)
+			ASSUME(vf_W[WIDX(i)] == 0);
+#endif
 #if OFFMODE == 2
 #ifdef OFF_CARRY
 	/* the carry case: start of the request within its undo block + offset remainder reaches the next undo block */
